@@ -84,15 +84,102 @@ def backoff_iter(model):
                                                                                 count=int(count), factor=float(factor))
 
 
-REPLAYERS = {'chunk_ranges': chunk_ranges, 'backoff_iter': backoff_iter}
+# ---- functions whose inputs are small structures: the failing input is found by a native small-scope search ---------------------
+# (the solver's model of a quantified heap obligation is partial; instead of reconstructing objects from it, every structure
+#  up to a small size is tried on the real function and the clauses are asserted natively; exit 1 = a failing input exists)
+ISET_COMMON = '''import itertools
+from boltons.setutils import IndexedSet
+def interval_lists(nslots):
+    # every sorted list of disjoint non-empty [a, b) intervals inside 0..nslots (adjacent intervals allowed)
+    out = [[]]
+    def rec(lo, acc):
+        for a in range(lo, nslots):
+            for b in range(a + 1, nslots + 1):
+                out.append(acc + [[a, b]])
+                rec(b, acc + [[a, b]])
+    rec(0, [])
+    return out
+def dead_set(ivs):
+    return {x for a, b in ivs for x in range(a, b)}
+def mk(ivs):
+    s = IndexedSet()
+    s.dead_indices[:] = [list(iv) for iv in ivs]
+    return s
+'''
+ISET_ADD_DEAD = ISET_COMMON + '''for ivs in interval_lists(7):
+    dead = dead_set(ivs)
+    for start in range(0, 8):
+        if start in dead:
+            continue
+        s = mk(ivs)
+        try:
+            s._add_dead(start)
+        except Exception as e:
+            print('_add_dead raised', repr(e), 'for dead intervals', ivs, 'start', start); raise SystemExit(1)
+        new = s.dead_indices
+        ok = all(a < b for a, b in new) and all(new[j][1] <= new[j + 1][0] for j in range(len(new) - 1)) \
+            and dead_set(new) == dead | {start}
+        if not ok:
+            print('dead intervals', ivs, '_add_dead(%d) ->' % start, new); raise SystemExit(1)
+'''
+ISET_REAL = ISET_COMMON + '''for ivs in interval_lists(7):
+    dead = dead_set(ivs)
+    live = [x for x in range(0, 12) if x not in dead]
+    s = mk(ivs)
+    for i, slot in enumerate(live):
+        if s._get_real_index(i) != slot:
+            print('dead intervals', ivs, '_get_real_index(%d) ->' % i, s._get_real_index(i), 'expected', slot); raise SystemExit(1)
+        if s._get_apparent_index(slot) != i:
+            print('dead intervals', ivs, '_get_apparent_index(%d) ->' % slot, s._get_apparent_index(slot), 'expected', i); raise SystemExit(1)
+'''
+RESOLVE = '''import itertools
+from boltons.urlutils import resolve_path_parts
+for n in range(0, 6):
+    for parts in itertools.product(['', '.', '..', 'a', 'b'], repeat=n):
+        got = resolve_path_parts(list(parts))
+        if any(p in ('.', '..') for p in got):
+            print('resolve_path_parts', list(parts), '->', got, ': dot segment left'); raise SystemExit(1)
+        if not any(p in ('.', '..') for p in parts) and got != list(parts):
+            print('resolve_path_parts', list(parts), '->', got, ': dot-free input changed'); raise SystemExit(1)
+'''
+
+
+BARREL = '''import itertools
+from boltons.listutils import BarrelList
+for shape in itertools.chain.from_iterable(itertools.product(range(0, 4), repeat=k) for k in range(1, 5)):
+    bl = BarrelList()
+    vals = iter(range(100))
+    bl.lists[:] = [[next(vals) for _ in range(n)] for n in shape]
+    flat = [x for sub in bl.lists for x in sub]
+    for index in range(-len(flat) - 2, len(flat)):
+        li, ri = bl._translate_index(index)
+        if index < -len(flat):
+            ok = li is None and ri is None
+        else:
+            ok = li is not None and 0 <= li < len(bl.lists) and 0 <= ri < len(bl.lists[li]) and bl.lists[li][ri] == flat[index]
+        if not ok:
+            print('sub-list lengths', shape, '_translate_index(%d) ->' % index, (li, ri)); raise SystemExit(1)
+'''
+
+
+def _search(snippet, what):
+    return lambda model: (snippet, dict(found_by='native small-scope search on the real function (the solver model is attached)', scope=what))
+
+
+REPLAYERS = {'chunk_ranges': chunk_ranges, 'backoff_iter': backoff_iter,
+             'IndexedSet._add_dead': _search(ISET_ADD_DEAD, 'all dead-interval lists inside 0..7 x every live start'),
+             'IndexedSet._get_real_index': _search(ISET_REAL, 'all dead-interval lists inside 0..7 x every live slot below 12'),
+             'IndexedSet._get_apparent_index': _search(ISET_REAL, 'all dead-interval lists inside 0..7 x every live slot below 12'),
+             'BarrelList._translate_index': _search(BARREL, 'all shapes of <= 4 sub-lists of <= 3 items x every index from -len-2 to len-1'),
+             'resolve_path_parts': _search(RESOLVE, 'all lists of <= 5 segments over {"", ".", "..", "a", "b"}')}
 
 
 def replay_for(function_name, model):
     base = function_name.split('[')[0]
     fn = REPLAYERS.get(base)
-    if fn is None or not model:
+    if fn is None:
         return None
     try:
-        return fn(model)
+        return fn(model or {})
     except Exception:
         return None
